@@ -444,6 +444,20 @@ ENVIRONMENTS = {
 }
 
 
+def size_ladder(cap=None, floor=0):
+    """Sizes / counts at which an unbounded quantity is exercised: one past each power-of-two-ish bound a "reasonable limit" could sit at, plus the
+    neighbours of every NEW integer literal of the changed source (harness/srcdict.py).  The properties bound none of these quantities."""
+    base = [17, 65, 257, 1025, 4097, 65537, 2 ** 20 + 1]
+    try:
+        from harness import srcdict
+        for t in srcdict.thresholds():
+            base += [t - 1, t, t + 1]
+    except Exception:
+        pass
+    out = sorted({n for n in base if n >= floor and (cap is None or n <= cap)})
+    return out
+
+
 def env_invariance(chk, group):
     """Runs harness.envprobe <group> once per environment (in parallel) and reports every case whose outcome differs from the default run."""
     import subprocess
